@@ -94,6 +94,7 @@ pub fn registry_check(steps: &[Step]) -> RegistryCheck {
         let mut guest: std::collections::HashMap<u64, (usize, Option<usize>)> = Default::default();
         let mut saved_guest = guest.clone();
         let mut released: std::collections::HashSet<usize> = Default::default();
+        let mut drops = 0u32;
         for step in steps {
             match step {
                 Step::Recv(ev) => {
@@ -161,7 +162,12 @@ pub fn registry_check(steps: &[Step]) -> RegistryCheck {
                 }
                 Step::Drop => {
                     let closed_before: Vec<u32> = log.lock().unwrap().records.clone();
-                    drop(receiver);
+                    drops += 1;
+                    if drops % 2 == 1 {
+                        crate::recv::drop_while_unwinding(receiver);
+                    } else {
+                        drop(receiver);
+                    }
                     res.restored &= tracing::Span::current().id() == before;
                     {
                         let log = log.lock().unwrap();
